@@ -56,10 +56,49 @@ func init() {
 	noop := func(ex *Exec, fr *Frame, in ssa.Instruction, fn *ssa.Function, args []Value, st *State, cont callCont) {
 		cont(st, fr, nil)
 	}
-	for _, n := range []string{"(*sync.RWMutex).Lock", "(*sync.RWMutex).Unlock", "(*sync.RWMutex).RLock", "(*sync.RWMutex).RUnlock",
-		"(*sync.Mutex).Lock", "(*sync.Mutex).Unlock", "fmt.Println", "fmt.Printf"} {
+	for _, n := range []string{"fmt.Println", "fmt.Printf"} {
 		intrinsics[n] = noop
 	}
+	// mutexes: ghost lock state for package-level mutexes (lock discipline of `protects` globals);
+	// mutexes that are not package-level variables are not tracked. Blocking is not modelled.
+	lockOp := func(op string) intrinsicFn {
+		return func(ex *Exec, fr *Frame, in ssa.Instruction, fn *ssa.Function, args []Value, st *State, cont callCont) {
+			where := "deferred call in " + fr.fn.String()
+			if in != nil {
+				where = ex.pos(in)
+			}
+			if a, ok := args[0].(*Term); ok {
+				if rg := Subst(Rg(a), st.substMap()); rg.IsConst() && rg.Val.IsInt64() && rg.Val.Sign() < 0 {
+					id := rg.Val.Int64()
+					if st.locks == nil {
+						st.locks = map[int64]int8{}
+					}
+					cur := st.locks[id]
+					switch op {
+					case "Lock":
+						ex.addObl(st, "lock", "lock:acquire-free", BoolConst(cur == 0), where)
+						st.locks[id] = 2
+					case "RLock":
+						ex.addObl(st, "lock", "lock:acquire-free", BoolConst(cur != 2), where)
+						st.locks[id] = 1
+					case "Unlock":
+						ex.addObl(st, "lock", "lock:release-held", BoolConst(cur == 2), where)
+						st.locks[id] = 0
+					case "RUnlock":
+						ex.addObl(st, "lock", "lock:release-held", BoolConst(cur == 1), where)
+						st.locks[id] = 0
+					}
+				}
+			}
+			cont(st, fr, nil)
+		}
+	}
+	intrinsics["(*sync.RWMutex).Lock"] = lockOp("Lock")
+	intrinsics["(*sync.RWMutex).Unlock"] = lockOp("Unlock")
+	intrinsics["(*sync.RWMutex).RLock"] = lockOp("RLock")
+	intrinsics["(*sync.RWMutex).RUnlock"] = lockOp("RUnlock")
+	intrinsics["(*sync.Mutex).Lock"] = lockOp("Lock")
+	intrinsics["(*sync.Mutex).Unlock"] = lockOp("Unlock")
 	intrinsics["bytes.Equal"] = func(ex *Exec, fr *Frame, in ssa.Instruction, fn *ssa.Function, args []Value, st *State, cont callCont) {
 		a, b := args[0].(*SliceV), args[1].(*SliceV)
 		if g, ok := eqBytesSegs(st, a, b); ok {
